@@ -43,7 +43,7 @@ Qed.
 Example C01_example_history :
   let h := [Buffered [[x41; x42]; [x43]]; Direct [[x44]] [x45; x46]; Buffered []] in
   match send_all new_stream h with
-  | (_, SOk fs) => fst (fst (recv_upto ApiComplete new_stream 3 fs)) <> new_stream \/ True
+  | (_, SOk fs) => snd (fst (fst (recv_upto ApiComplete new_stream 3 fs))) = map payload_of h
   | _ => False
   end.
-Proof. vm_compute. right. exact I. Qed.
+Proof. vm_compute. reflexivity. Qed.
